@@ -92,6 +92,7 @@ func (sc *StateCache) commit(bc *BlockCache) {
 	sc.lock.Lock()
 	defer sc.lock.Unlock()
 
+	vyield("commit:committed?", "", bc.blockHash)
 	_, ok := sc.hashCache.Get(bc.blockHash)
 	if ok {
 		// block already committed
@@ -102,6 +103,7 @@ func (sc *StateCache) commit(bc *BlockCache) {
 	defer bc.mu.Unlock()
 	ts := time.Now()
 	for key, v := range bc.cache {
+		vyield("commit:keymap.get", key, bc.blockHash)
 		bvsi, ok := sc.cache.Get(key)
 		if !ok {
 			var err error
@@ -116,11 +118,14 @@ func (sc *StateCache) commit(bc *BlockCache) {
 		if v.data != nil {
 			v.data = v.data.Clone()
 		}
+		vyield("commit:versions.add", key, bc.blockHash)
 		bvs.Add(bc.blockHash, v)
 
+		vyield("commit:keymap.add", key, bc.blockHash)
 		sc.cache.Add(key, bvs)
 	}
 
+	vyield("commit:link.publish", "", bc.blockHash)
 	sc.commitRound(bc.round, bc.prevBlockHash, bc.blockHash)
 
 	sc.hits += bc.hits
@@ -142,6 +147,7 @@ func (sc *StateCache) Get(key, blockHash string) (Value, bool) {
 	// sc.mu.RLock()
 	// defer sc.mu.RUnlock()
 
+	vyield("get:keymap.get", key, blockHash)
 	blockValues, ok := sc.cache.Get(key)
 	if !ok {
 		logging.Logger.Debug("state cache get - key not found", zap.String("key", key))
@@ -149,6 +155,7 @@ func (sc *StateCache) Get(key, blockHash string) (Value, bool) {
 	}
 
 	bvs := blockValues.(*lru.Cache)
+	vyield("get:versions.get", key, blockHash)
 	vv, ok := bvs.Get(blockHash)
 	if ok {
 		v := vv.(valueNode)
@@ -167,6 +174,7 @@ func (sc *StateCache) Get(key, blockHash string) (Value, bool) {
 	for {
 		count++
 		// get previous block hash
+		vyield("get:link.get", key, blockHash)
 		prevHash, ok := sc.hashCache.Get(blockHash)
 		if !ok {
 			// could not find previous hash
@@ -175,6 +183,7 @@ func (sc *StateCache) Get(key, blockHash string) (Value, bool) {
 		}
 
 		blockHash = prevHash.(string)
+		vyield("get:versions.get", key, blockHash)
 		vv, ok = bvs.Get(blockHash)
 		if !ok {
 			// stop if the value is not found in previous maxHisDepth rounds
@@ -192,6 +201,7 @@ func (sc *StateCache) Get(key, blockHash string) (Value, bool) {
 		// if count >= 20 {
 		// remember the value for the queried block in the key's own block map;
 		// the entries of the other blocks must stay
+		vyield("get:memo.add", key, oldBlockHash)
 		bvs.Add(oldBlockHash, v)
 		// logging.Logger.Debug("state cache - migrate from previous block",
 		// 	zap.String("key", key),
